@@ -59,7 +59,7 @@ func VerifC04_SingleCheckout() {
 	name := root + "/work/file.bin"
 	mode := []int{0644, 0444, 0755}[verifChoose("file.mode", 3)]
 	before := ""
-	state := verifChoose("file.state", 6)
+	state := verifChoose("file.state", 7)
 	switch state {
 	case 0: // missing
 	case 1: // the pointer recorded for it
@@ -77,6 +77,26 @@ func VerifC04_SingleCheckout() {
 		before = verifNondetString("edit.long")
 		verifAssume(len(before) >= 1024 && len(before) <= 4000000)
 	case 5: // emptied
+	case 6: // edited into pointer-shaped text that is not a valid pointer
+		hex := verifNondetString("bad.oid")
+		verifAssumeAlphabet(hex, "09af")
+		switch verifChoose("bad.kind", 5) {
+		case 0: // a digit short
+			verifAssume(len(hex) == 63)
+			before = "version https://git-lfs.github.com/spec/v1\noid sha256:" + hex + "\nsize 12\n"
+		case 1: // another hash function
+			verifAssume(len(hex) == 32)
+			before = "version https://git-lfs.github.com/spec/v1\noid md5:" + hex + "\nsize 12\n"
+		case 2: // a size that is no number
+			verifAssume(len(hex) == 64)
+			before = "version https://git-lfs.github.com/spec/v1\noid sha256:" + hex + "\nsize big\n"
+		case 3: // a version this client does not know
+			verifAssume(len(hex) == 64)
+			before = "version https://git-lfs.github.com/spec/v2\noid sha256:" + hex + "\nsize 12\n"
+		case 4: // a negative size
+			verifAssume(len(hex) == 64)
+			before = "version https://git-lfs.github.com/spec/v1\noid sha256:" + hex + "\nsize -12\n"
+		}
 	}
 	if state != 0 {
 		verifFSWrite(name, before, mode)
